@@ -844,6 +844,21 @@ fn client_search() {
 // ---------------------------------------------------------------------------------------------------
 // C15 (bounded): the real Server with max_connections = 2.  Connections come and go in every way a client can end one; afterwards
 // exactly two connections are served concurrently and a third is served only once one of them has closed.
+/// A storage whose `clone()` panics once when armed: Handler::run clones the storage per command IN THE CONNECTION TASK, so this is a
+/// panic of the handler itself (a panic inside set/get/del would only be a JoinError of spawn_blocking, an ordinary error exit).
+struct PanicKv<K> { inner: K, armed: std::sync::Arc<std::sync::atomic::AtomicBool> }
+impl<K: Clone> Clone for PanicKv<K> {
+    fn clone(&self) -> Self {
+        if self.armed.swap(false, std::sync::atomic::Ordering::SeqCst) { panic!("verif: handler panic requested"); }
+        PanicKv { inner: self.inner.clone(), armed: self.armed.clone() }
+    }
+}
+impl<K: bitcask::storage::KeyValueStorage> bitcask::storage::KeyValueStorage for PanicKv<K> {
+    type Error = K::Error;
+    fn set(&self, key: bytes::Bytes, value: bytes::Bytes) -> Result<(), Self::Error> { self.inner.set(key, value) }
+    fn get(&self, key: bytes::Bytes) -> Result<Option<bytes::Bytes>, Self::Error> { self.inner.get(key) }
+    fn del(&self, key: bytes::Bytes) -> Result<bool, Self::Error> { self.inner.del(key) }
+}
 fn server_slots() {
     use bitcask::storage::bitcask::{Config as SConf, SyncStrategy};
     use tokio::io::{AsyncReadExt, AsyncWriteExt};
@@ -852,7 +867,8 @@ fn server_slots() {
     let mut c = SConf::default();
     c.path(dir.path()).concurrency(2).max_file_size(1 << 20).sync(SyncStrategy::None).merge_check_interval_ms(1_000_000_000).merge_check_jitter(0.0);
     let kv = c.open().unwrap();
-    let handle = kv.get_handle();
+    let armed = std::sync::Arc::new(std::sync::atomic::AtomicBool::new(false));
+    let handle = PanicKv { inner: kv.get_handle(), armed: armed.clone() };
     let port = { let l = std::net::TcpListener::bind("127.0.0.1:0").unwrap(); l.local_addr().unwrap().port() };
     let (stop_tx, stop_rx) = tokio::sync::oneshot::channel::<()>();
     let mut nc = bitcask::net::Config::default();
@@ -869,9 +885,15 @@ fn server_slots() {
             &buf == b"$-1\r\n"
         }
         let mut churned = 0usize;
-        for round in 0..12usize {
+        for round in 0..15usize {
             let mut s = tokio::net::TcpStream::connect(("127.0.0.1", port)).await.map_err(|e| format!("connect: {}", e))?;
-            match round % 4 {
+            match round % 5 {
+                4 => {   // the handler task panics (the storage clone it makes for the next command panics once)
+                    if !served(&mut s, 8000).await { return Ok((churned, format!("connection {} (the only one open) was not served within 8 s", round))); }
+                    armed.store(true, std::sync::atomic::Ordering::SeqCst);
+                    let _ = s.write_all(PING).await; let mut b = [0u8; 64]; let _ = tokio::time::timeout(std::time::Duration::from_millis(1000), s.read(&mut b)).await;
+                    armed.store(false, std::sync::atomic::Ordering::SeqCst);
+                }
                 0 => { if !served(&mut s, 8000).await { return Ok((churned, format!("connection {} (the only one open) was not served within 8 s", round))); } }   // clean close after one request
                 1 => { let _ = s.write_all(b"*2\r\n$3\r\nGE").await; }                       // ends in the middle of a frame
                 2 => { let _ = s.write_all(b"*1\r\n$4\r\nNOPE\r\n").await; let mut b = [0u8; 64]; let _ = tokio::time::timeout(std::time::Duration::from_millis(300), s.read(&mut b)).await; }   // unknown command
